@@ -172,6 +172,12 @@ impl NumericParser {
 
     pub fn done(&mut self) -> bool {
         let ret = self.subtotal.add(&mut self.tmp) && self.total.add(&mut self.subtotal);
+        if !ret {
+            // the last group does not fit: this is not the "trailing separator" case,
+            // the caller must not join the prefix with an incomplete total
+            self.error_state = Error::NONE;
+            return false;
+        }
         if self.has_hanging_point {
             self.error_state = Error::POINT;
             return false;
